@@ -196,7 +196,16 @@ def engine_history(rng, eid, nsteps):
     open_q = []
     qid = 0
     answers_after = 0
+    big = rng.random() < 0.35
+    if big:
+        # a large table tab/2 whose keys (first arguments) are the same atoms in every engine, contents differ
+        for i in range(rng.choice([16, 17, 20, 33, 40])):
+            hist.append(('assert_fact', C('tab', A('k%d' % (i % 7)), A('e%d_t%d' % (eid, i))), True))
     for _ in range(nsteps):
+        if big and rng.random() < 0.25:
+            sid += 1
+            hist.append(('run', 'tab', [A('k%d' % rng.randrange(7)), V('Tv%d_%d' % (eid, sid))], rng.choice([None, None, 2])))
+            continue
         r = rng.random()
         sid += 1
         if r < 0.2:
